@@ -14,7 +14,7 @@
                    the same for parsers, on all inputs of the domain of [E] of length <= n.
    The two sides may be the grammar at two different fuel levels: the caches are shared by all
    levels, so a stored result must be related to the memo-off parser of every level. *)
-From GoldV Require Import Base Tokens Lexer AstKinds Tree Strings PComb Grammar ParserWF.
+From GoldV Require Import Base Tokens Lexer AstKinds Tree Strings PComb Grammar MemoObs ParserWF.
 From Coq Require Import Lia.
 Local Open Scope nat_scope.
 
@@ -640,14 +640,7 @@ Qed.
 (* ---------- the cache invariant relative to the method body being parsed ---------- *)
 
 (* the un-memoised bodies of the three memoised parsers, at fuel level g (for inputs of length <= g) *)
-Definition method_call_body (re : P node) : P node :=
-  id <- parse_identifier ;;
-  _ <- exp_token TOBracket ;;
-  ps <- sep_list re TComma ;;
-  cb <- exp_token TCBracket ;;
-  ret (Node KAstMethodCall (nident id) (nraw id) (mkRange (rstart (nrange id)) (rend (trange cb))) [] ps).
-
-Lemma parse_method_call_eq re : parse_method_call re = memo_ok_only CACHE_METHOD_CALL (method_call_body re).
+Lemma parse_method_call_eq re : parse_method_call re = memo CACHE_METHOD_CALL (method_call_body re).
 Proof. reflexivity. Qed.
 
 Definition primary_alts (re rp : P node) : P node :=
